@@ -581,6 +581,7 @@ func c04Cache(p *Prog, r *Report, R2 string) {
 				}
 				n++
 				reset := false
+				var resetAt *ssa.Store
 				for _, b := range m.Blocks {
 					for _, in := range b.Instrs {
 						st, ok := in.(*ssa.Store)
@@ -593,15 +594,124 @@ func c04Cache(p *Prog, r *Report, R2 string) {
 						}
 						if isNilConst(st.Val) && dominates(st, rp.Ret) {
 							reset = true
+							resetAt = st
 						}
 					}
 				}
 				if !reset {
 					okAll = false
 				}
+				// ... and nothing re-fills the cache between the reset and the return
+				if reset {
+					for _, b := range m.Blocks {
+						for _, in := range b.Instrs {
+							st, ok := in.(*ssa.Store)
+							if !ok || isNilConst(st.Val) {
+								continue
+							}
+							fa, ok := st.Addr.(*ssa.FieldAddr)
+							if !ok || fieldName(fa.X.Type(), fa.Field) != "raw" {
+								continue
+							}
+							if reaches(resetAt, st) && reaches(st, rp.Ret) {
+								okAll = false
+							}
+						}
+					}
+				}
 			}
 			r.Check(okAll && n > 0, R2, shortName(m)+" resets the encoding cache", p.Pos(m.Pos()), "every success return is dominated by raw = nil", "the method stores to fields Marshal reads but a success return is reachable without resetting the cached encoding: Marshal afterwards returns the previous value's bytes")
 		}
+	}
+	encodingCaches(p, r, R2, nil)
+}
+
+// encodingCaches: for every in-module type whose Marshal returns a cached
+// field when it is set (if r.f != nil { return r.f }), every store to that
+// field anywhere in the module is either nil or made by Marshal itself (or a
+// helper only Marshal reaches) - a decoder or constructor that seeds the cache
+// with input bytes makes Marshal return something other than the encoding of
+// the fields.
+func encodingCaches(p *Prog, r *Report, rule string, only func(typ string) bool) {
+	type cacheField struct {
+		typ   string
+		field string
+		m     *ssa.Function
+	}
+	var caches []cacheField
+	for _, f := range p.ModuleFuncs() {
+		if f.Name() != "Marshal" || f.Signature.Recv() == nil || f.Parent() != nil || f.Blocks == nil {
+			continue
+		}
+		ff := p.Facts(f)
+		for _, rp := range ff.RetPoints(-1) {
+			if len(rp.Vals) < 1 {
+				continue
+			}
+			u, ok := rp.Vals[0].(*ssa.UnOp)
+			if !ok || u.Op != token.MUL {
+				continue
+			}
+			fa, ok := u.X.(*ssa.FieldAddr)
+			if !ok {
+				continue
+			}
+			rpc := rp
+			s := p.NewSym(f)
+			if isCacheReturn(&rpc) || s.cacheFillValue(rp.Vals[0]) != nil {
+				cf := cacheField{typeShort(deref(fa.X.Type())), fieldName(fa.X.Type(), fa.Field), f}
+				if only != nil && !only(cf.typ) {
+					continue
+				}
+				dup := false
+				for _, c := range caches {
+					if c.typ == cf.typ && c.field == cf.field {
+						dup = true
+					}
+				}
+				if !dup {
+					caches = append(caches, cf)
+				}
+			}
+		}
+	}
+	for _, c := range caches {
+		var bad []string
+		n := 0
+		for _, f := range p.ModuleFuncs() {
+			for _, b := range f.Blocks {
+				for _, in := range b.Instrs {
+					st, ok := in.(*ssa.Store)
+					if !ok {
+						continue
+					}
+					fa, ok := st.Addr.(*ssa.FieldAddr)
+					if !ok || typeShort(deref(fa.X.Type())) != c.typ || fieldName(fa.X.Type(), fa.Field) != c.field {
+						continue
+					}
+					n++
+					if isNilConst(st.Val) {
+						continue
+					}
+					root := f
+					for root.Parent() != nil {
+						root = root.Parent()
+					}
+					if root == c.m || p.onlyVia(root, map[*ssa.Function]bool{c.m: true}) {
+						continue
+					}
+					bad = append(bad, shortName(f)+" at "+p.InstrPos(st))
+				}
+			}
+		}
+		r.Check(len(bad) == 0, rule, c.typ+"."+c.field+": the encoding cache is filled only by Marshal", p.Pos(c.m.Pos()), fmt.Sprintf("%d store(s): nil or inside Marshal", n), "the cache is seeded outside Marshal (Marshal will return these bytes instead of the encoding of the fields): "+strings.Join(bad, "; "))
+	}
+	if len(caches) == 0 {
+		if only != nil {
+			r.OK(rule, "no selected type caches its encoding", "-", "nothing to seed")
+			return
+		}
+		r.Fail(rule, "encoding caches", "-", "no Marshal method with an encoding cache was found (rule vacuous)")
 	}
 }
 
